@@ -253,6 +253,38 @@ func allowedC14(prev, cur []journal.StopTime, U []gtfs.StopTimeUpdate, T time.Ti
 	return ""
 }
 
+// allowedSetC14 generates every list the property allows after applying update U at time T to list st.
+// ok is false when the set would be too large to enumerate (unknown first stop and a long list).
+func allowedSetC14(st []journal.StopTime, U []gtfs.StopTimeUpdate, T time.Time) (set [][]journal.StopTime, ok bool) {
+	marked := markCopy(st, T)
+	if len(U) == 0 {
+		return [][]journal.StopTime{marked}, true
+	}
+	fresh := freshList(U, T)
+	first := fresh[0].StopID
+	for i := range st {
+		if st[i].StopID == first {
+			set = append(set, append(append([]journal.StopTime(nil), marked[:i]...), fresh...))
+		}
+	}
+	if len(set) > 0 {
+		return set, true
+	}
+	if len(marked) > 9 {
+		return nil, false
+	}
+	for mask := 0; mask < 1<<len(marked); mask++ {
+		var pre []journal.StopTime
+		for i := range marked {
+			if mask&(1<<i) != 0 {
+				pre = append(pre, marked[i])
+			}
+		}
+		set = append(set, append(pre, fresh...))
+	}
+	return set, true
+}
+
 type parsedFeed struct {
 	r *gtfs.Realtime
 	b []byte
@@ -541,7 +573,52 @@ func runJournal(t *sim.T, which string) *sim.Violation {
 						c14Probes(t, prev, U, &interesting)
 					}
 				default:
-					t.Probe("c14-skipped-two-updates")
+					// several updates for one journal key in one feed: the intermediate lists are not observable;
+					// compose the allowed sets update by update (skipped when the sets grow too large)
+					if !prevKnown {
+						t.Probe("c14-skipped-two-updates")
+						break
+					}
+					states := [][]journal.StopTime{prev}
+					feasible := true
+					for ui, u := range us {
+						// Which of several same-key updates of one feed "the update" of C14 is, the property does
+						// not say: only the last one is required to have been applied (and a vehicle-less update
+						// of an assigned trip may always be dropped, see above); earlier ones may or may not.
+						optional := !u.applied || ui < len(us)-1
+						var next [][]journal.StopTime
+						for _, st := range states {
+							set, ok := allowedSetC14(st, u.u.StopTimeUpdates, T)
+							if !ok {
+								feasible = false
+								break
+							}
+							next = append(next, set...)
+							if optional {
+								next = append(next, st)
+							}
+						}
+						if !feasible || len(next) > 3000 {
+							feasible = false
+							break
+						}
+						states = next
+					}
+					if !feasible {
+						t.Probe("c14-skipped-two-updates")
+						break
+					}
+					found := false
+					for _, st := range states {
+						if listEq(cur, st) {
+							found = true
+							break
+						}
+					}
+					if !found {
+						return describe("several-updates-one-key", us[len(us)-1].u.StopTimeUpdates)
+					}
+					t.Probe("c14-composed-two-updates")
 				}
 				// marks never change once set unless the stop is reported again: implied by the clauses above
 			}
